@@ -49,9 +49,9 @@ var scenarios = []scenario{
 		"a": {rec("a", 0, 1, keys[0]), rec("a", 1, 2, keys[0])},
 		"b": {rec("b", 0, 3, keys[0]), rec("b", 1, 0), rec("b", 2, 1, keys[1])}}, []string{"a", "b"}},
 	{"one split, four records on two operators", map[string][]srh.Record{
-		"a": {rec("a", 0, 2, keys[1]), rec("a", 1, 2, keys[0]), rec("a", 2, 0, keys[1]), rec("a", 3, 3, keys[0], keys[2])}}, []string{"a"}},
+		"a": {rec("a", 0, 3, keys[1]), rec("a", 1, 1, keys[0]), rec("a", 2, 2, keys[1]), rec("a", 3, 3, keys[0], keys[2])}}, []string{"a"}},
 	{"one split, five records of one key", map[string][]srh.Record{
-		"a": {rec("a", 0, 1, keys[0]), rec("a", 1, 2, keys[0]), rec("a", 2, 3, keys[0]), rec("a", 3, 4, keys[0]), rec("a", 4, 5, keys[0])}}, []string{"a"}},
+		"a": {rec("a", 0, 1, keys[0]), rec("a", 1, 2, keys[0]), rec("a", 2, 2, keys[0]), rec("a", 3, 4, keys[0]), rec("a", 4, 3, keys[0])}}, []string{"a"}},
 }
 
 type params struct {
@@ -62,7 +62,7 @@ type params struct {
 }
 
 func rule(what string) string {
-	return "a real SourceRunner (reader loop, asynchronous KeyEventBatch with latency through the real ReorderFetcher, per-operator batching, watermark ticker and batch time-outs on virtual time) with a harness reader over scenarios of 1-2 splits and 3-5 records (out-of-order timestamps, records with 0-2 keyed events, a key shared by two splits), read size 1-2, 1-2 recording operators with back-pressure (a separate part gives every operator call a virtual latency of 15 ms, longer than the batch time-out), MaxSize 1-2, MaxDelay 0/10ms, a checkpoint barrier requested after the first or second read (racing with everything else) or none; every schedule within the delay bound (an early timer expiry costs one). " + what
+	return "a real SourceRunner (reader loop, asynchronous KeyEventBatch with latency through the real ReorderFetcher, per-operator batching, watermark ticker and batch time-outs on virtual time) with a harness reader over scenarios of 1-2 splits and 3-5 records (timestamps out of order - a late record, a late record followed by one between it and the maximum, repeated timestamps -, records with 0-2 keyed events, a key shared by two splits), read size 1-2, 1-2 recording operators with back-pressure (a separate part gives every operator call a virtual latency of 15 ms, longer than the batch time-out), MaxSize 1-2, MaxDelay 0/10ms, a checkpoint barrier requested after the first or second read (racing with everything else) or none; every schedule within the delay bound (an early timer expiry costs one). " + what
 }
 
 func run(k *report.Check, oracle string) {
